@@ -5,6 +5,7 @@ import Mrm.Proofs.Loops
 import Mrm.Proofs.Rc
 
 set_option linter.unusedSimpArgs false
+set_option linter.unusedSectionVars false
 
 namespace Mrm
 
@@ -33,6 +34,14 @@ theorem all_mem_of_ok {ss ids : List Key} (h : ss.all (fun s => s.isSome && ids.
     ∀ s ∈ ss, s ∈ ids := by
   rw [List.all_eq_true] at h
   intro s hs; exact mem_of_ok (by simpa using h s hs)
+
+theorem all_some_of_ok {ss ids : List Key} (h : ss.all (fun s => s.isSome && ids.contains s) = true) :
+    ∀ s ∈ ss, s.isSome = true := by
+  rw [List.all_eq_true] at h
+  intro s hs
+  have := h s hs
+  simp only [Bool.and_eq_true] at this
+  exact this.1
 
 /-! ### insertion with de-duplication -/
 
@@ -139,9 +148,10 @@ theorem story_replace
       (specIds .StoryReplace "story" (namedOf .StoryReplace base) (keysOf "story" rc.kids)) := by
   simp only [resolves, namedOf, Kind.group, Bool.and_eq_true] at hres
   obtain ⟨ht, hne⟩ := hres
+  have hts := ht.1
   have ht := mem_of_ok ht
   simp only [mergeRc, specIds, namedOf, Kind.group, elemId_eq]
-  rw [g.findRequired_mem none ht]
+  rw [findRequired_mem none ht hts]
   have hne' : (base.findall "story").isEmpty = false := by simpa using hne
   simp only [hne', Bool.false_eq_true, if_false]
   exact replaceAt_eff _ _ (findall_tagged base "story") ht
@@ -152,9 +162,10 @@ theorem story_eareplace
       (specIds .EAStoryReplace "story" (namedOf .EAStoryReplace base) (keysOf "story" rc.kids)) := by
   simp only [resolves, namedOf, Kind.group, Bool.and_eq_true] at hres
   obtain ⟨ht, _⟩ := hres
+  have hts := ht.1
   have ht := mem_of_ok ht
   simp only [mergeRc, specIds, namedOf, Kind.group, elemId_eq, srcElems_eq]
-  rw [g.findRequired_mem none ht]
+  rw [findRequired_mem none ht hts]
   exact replaceAt_eff _ _ (elemsOf_tagged _ "story") ht
 
 theorem story_swap
@@ -168,7 +179,8 @@ theorem story_swap
   match ss, hlen, hall with
   | [a, b], _, hall =>
     have := all_mem_of_ok hall
-    exact swapTwo_eff g a b (this a (by simp)) (this b (by simp))
+    have hsm := all_some_of_ok hall
+    exact swapTwo_eff g a b (this a (by simp)) (this b (by simp)) (hsm a (by simp)) (hsm b (by simp))
 
 theorem story_eamove
     (hres : resolves .EAStoryMove (namedOf .EAStoryMove base) (keysOf "story" rc.kids) = true) :
@@ -177,30 +189,33 @@ theorem story_eamove
   simp only [resolves, namedOf, Kind.group, Bool.and_eq_true] at hres
   obtain ⟨⟨⟨⟨htgt, hall⟩, hnd⟩, hts⟩, _⟩ := hres
   simp only [mergeRc, specIds, namedOf, Kind.group, elemId_eq, eaSourceIds_eq]
+  have hsm := all_some_of_ok hall
   have hall := all_mem_of_ok hall
   have hnd : (allSourceIds base "storyID").Nodup := of_decide_eq_true hnd
-  apply moveMany_eff g _ _ _ hall hnd
+  apply moveMany_eff g _ _ _ hall hsm hnd
   · cases ht : Xml.childText (base.find "element_target") "storyID" with
     | none =>
       intro hc
-      have := g.sm none (hall none hc)
+      have := hsm none hc
       cases this
     | some t =>
       rw [ht] at hts; simpa [endIfBlank] using hts
   · cases ht : Xml.childText (base.find "element_target") "storyID" with
-    | none => exact Or.inl rfl
+    | none => intro h; cases h
     | some t =>
       rw [ht] at htgt
-      exact Or.inr (mem_of_ok (by simpa [endIfBlank] using htgt))
+      intro _
+      exact mem_of_ok (by simpa [endIfBlank] using htgt)
 
 theorem story_insert (htim : storiesExc rc = none)
     (hres : resolves .StoryInsert (namedOf .StoryInsert base) (keysOf "story" rc.kids) = true) :
     Eff "story" rc.kids (mergeRc .StoryInsert rc base none)
       (specIds .StoryInsert "story" (namedOf .StoryInsert base) (keysOf "story" rc.kids)) := by
   simp only [resolves, namedOf, Kind.group, Bool.and_eq_true] at hres
+  have hts := hres.1
   have ht := mem_of_ok hres
   simp only [mergeRc, specIds, namedOf, Kind.group, elemId_eq, Kind.dedups, if_true]
-  rw [g.findRequired_mem none ht]
+  rw [findRequired_mem none ht hts]
   simp only [htim]
   exact insertDedup_eff_at ht _ (findall_tagged base "story")
 
@@ -217,7 +232,7 @@ theorem story_eainsert (htim : storiesExc rc = none)
   | some t =>
     rw [ht] at hres
     have hm : some t ∈ keysOf "story" rc.kids := by simpa [endIfBlank] using hres
-    rw [g.findTarget_mem none hm]
+    rw [findTarget_mem none hm rfl]
     simp only [htim, endIfBlank, Option.getD_some]
     exact insertDedup_eff_at hm _ (elemsOf_tagged _ "story")
 
@@ -235,14 +250,17 @@ theorem story_move
   | cons sid rest =>
     simp only [List.take_succ_cons, List.take_zero, List.drop_succ_cons, List.drop_zero] at *
     have hsid : sid ∈ keysOf "story" rc.kids := all_mem_of_ok hall sid (by simp)
+    have hsids : sid.isSome = true := all_some_of_ok hall sid (by simp)
+    have hsm : ∀ s ∈ [sid], s.isSome = true := by
+      intro s hs; simp only [List.mem_singleton] at hs; subst hs; exact hsids
     have hss : ∀ s ∈ [sid], s ∈ ks (kt "story") rc.kids := by
       intro s hs; rw [← keysOf_eq_ks]; simp only [List.mem_singleton] at hs; subst hs; exact hsid
     have hend : Eff "story" rc.kids ⟨moveNodes rc.kids [idx (kt "story") rc.kids sid] none, [], none⟩
         (insBefore none [sid] ((keysOf "story" rc.kids).filter (fun x => ![sid].contains x))) := by
-      refine ⟨rfl, ?_, moveNodes_nk (kt "story") g.nd' hss none⟩
+      refine ⟨rfl, ?_, moveNodes_nk (kt "story") g.nd' hss hsm none⟩
       rw [keysOf_eq_ks, keysOf_eq_ks]
-      exact moveNodes_keys_end (kt "story") g.nd' hss
-    rw [g.findRequired_mem none hsid]
+      exact moveNodes_keys_end (kt "story") g.nd' hss hsm
+    rw [findRequired_mem none hsid hsids]
     cases rest with
     | nil =>
       simp only [findTarget]
@@ -257,7 +275,7 @@ theorem story_move
         have hm : some k ∈ keysOf "story" rc.kids := mem_of_ok (by simpa using htgt)
         have hm' : some k ∈ ks (kt "story") rc.kids := by rw [← keysOf_eq_ks]; exact hm
         have hne : some k ∉ [sid] := by simpa using hts
-        rw [g.findTarget_mem none hm]
+        rw [findTarget_mem none hm rfl]
         simp only
         have hidx : (some (idx (kt "story") rc.kids (some k)) == some (idx (kt "story") rc.kids sid)) = false := by
           rw [Bool.eq_false_iff]
@@ -266,8 +284,8 @@ theorem story_move
           have := idx_inj (kt "story") hm' (hss sid (by simp)) h
           exact hne (by simp [this])
         simp only [hidx, Bool.false_eq_true, if_false]
-        have h1 := moveNodes_nk (kt "story") g.nd' hss (some (idx (kt "story") rc.kids (some k)))
-        have h2 := moveNodes_keys (kt "story") g.nd' hss hm' hne
+        have h1 := moveNodes_nk (kt "story") g.nd' hss hsm (some (idx (kt "story") rc.kids (some k)))
+        have h2 := moveNodes_keys (kt "story") g.nd' hss hsm hm' rfl hne
         simp only [List.map_cons, List.map_nil] at h1 h2
         refine ⟨rfl, ?_, h1⟩
         rw [keysOf_eq_ks, keysOf_eq_ks]
@@ -279,8 +297,10 @@ theorem story_send (hsh : (base.find "storyBody").isSome = true) :
   obtain ⟨story, hconv, htag⟩ := convertStorySend_ok base hsh
   simp only [mergeRc, specIds, namedOf, Kind.group, hconv]
   rw [findChildId_ok "story" rc.kids _]
-  by_cases hm : elemId (some story) "storyID" ∈ keysOf "story" rc.kids
-  · rw [g.locate_mem hm]
+  by_cases hm : elemId (some story) "storyID" ∈ keysOf "story" rc.kids ∧
+      (elemId (some story) "storyID").isSome = true
+  · obtain ⟨hm, hsm⟩ := hm
+    rw [locate_of_mem hm hsm]
     simp only [pyInsert_eq_insertAt]
     have hm' : elemId (some story) "storyID" ∈ ks (kt "story") rc.kids := by
       rw [← keysOf_eq_ks]; exact hm
@@ -289,7 +309,11 @@ theorem story_send (hsh : (base.find "storyBody").isSome = true) :
     refine ⟨rfl, ?_, e2⟩
     rw [keysOf_eq_ks, e1, ks_tagged hx, ← keysOf_eq_ks]
     exact replaceKey_self hm
-  · rw [locate_of_not_mem hm]
+  · have hloc : locate "story" rc.kids (elemId (some story) "storyID") = none := by
+      cases hk : elemId (some story) "storyID" with
+      | none => rfl
+      | some k => rw [hk] at hm; exact locate_of_not_mem (fun h => hm ⟨h, rfl⟩)
+    rw [hloc]
     exact ⟨rfl, rfl, rfl⟩
 
 end
